@@ -363,7 +363,12 @@ def InlineSub(obj:Logic):
     return "assign {} = {} - {};\n".format(getParentWireName(obj, obj.r), getParentWireName(obj, obj.a) , getParentWireName(obj, obj.b))
 
 def InlineEqualConstant(obj:Logic):
-    return "assign {} = ({} == {})? 1 : 0;\n".format(getParentWireName(obj, obj.r), getParentWireName(obj, obj.a), obj.v )
+    v = obj.v
+    if (v < 0):
+        # the simulated circuit matches the two's complement pattern of a
+        # negative constant, a negative literal would be extended to 32 bits
+        v = v & ((1 << obj.a.getWidth()) - 1)
+    return "assign {} = ({} == {})? 1 : 0;\n".format(getParentWireName(obj, obj.r), getParentWireName(obj, obj.a), v )
 
 def InlineRange(obj:Logic):
     return "assign {} = {}[{}:{}];\n".format(getParentWireName(obj, obj.r), getParentWireName(obj, obj.a) , obj.high, obj.low)
